@@ -8,14 +8,18 @@ why = {
  "c02_b": "C02 not claimed: gsub_apply_custom behind the layout cache",
  "c03_a": "supported_features cache is a std HashMap (out of reach)",
  "c04_a": "nested lookup application (apply_subst) is behind the layout cache",
- "c04_b": "feature variations condition matching: LayoutTable parsing is behind the cache",
  "c05_b": "position_marks inside glyph_positions: out of memory",
- "c06_b": "legacy symbol remapping is private to Font::lookup_glyph_index (Symbol encoding path not encoded)",
- "c07_b": "GlyfTable::subset / is_composite: no answer in 10 min",
- "c09_b": "CFF INDEX writer (serialise_offset_array) is outside; only offset_size itself is a kernel",
  "c10_b": "zlib-compressed WOFF entries are outside the bound",
  "c11_a": "needs a glyph count that is a multiple of 32; harnesses with 32 (and even 0) glyphs do not finish in 10 min",
  "c16_b": "packed flag decoder SimpleGlyph::read_dep: out of memory",
+ "c16_r2a": "needs the composite walk with a non-identity transform (out of memory, section 4)",
+ "c01_r3a": "an allocation sized by an unvalidated length field is not a failure CBMC reports; zlib entries are outside",
+ "c03_r3a": "lookups_index cache is a std HashMap (out of reach)",
+ "c04_r3b": "apply_subst (nested lookups) fetches the nested lookup through the lookup cache (out of reach)",
+ "c05_r3b": "cursive chains in glyph_positions: out of memory",
+ "c09_r3a": "CompositeGlyph::write: bytes -> read -> write of a 2-component record gave no answer in 27 min / 6 GB",
+ "c18_r3b": "callsubr bias is chosen inside the interpreter loop (not encoded); only the bias kernel itself is",
+ "c10_b": "zlib-compressed WOFF entries are outside the bound",
 }
 print("| seed | property | change (needs) | result | by |")
 print("|---|---|---|---|---|")
